@@ -129,7 +129,7 @@ def run(ck):
         "the reconnect loop of a broker client whose connect is refused or unanswered (brokerclient.py:414-461) is environment: the driver lets the connection come up after the request was given up and, at an address where no broker listens, resets it at once (reported to the model as a connection loss)",
         "partition_meta, replicas/isr and the partition error code are not modelled (nothing in the property reads them); the client is built with enable_protocol_version_discovery=False and the default disconnect_on_timeout",
         "a failed send through _send_request_to_coordinator does not invalidate the cached coordinator (C08_coordinator_failed_send_keeps_cache: documented deviation, compensated by _group.py rejoin_after_error)",
-        "C08_recovery_partial is the bounded-progress form: at most one failed attempt per stale topic after the last fault, provided the metadata request is answered truthfully by some broker or bootstrap host; the Producer/Consumer retry loops are not part of this model (the failover monitor retries the client call itself)",
+        "C08_recovery_within_budget premises (per attempt, after the last fault): fixed topology, truthful lookups that get as far as sending, every request answered by its node with 0 / NotLeader truthfully (no failed sends: a re-addressed broker's old connection is gone), distinct payload keys; the composition with the Producer/Consumer retry loops and budgets (C09_attempt_bound, C14_attempt_limit) is not mechanised; the failover monitor retries the client call itself and counts failed sends separately (at most one, it empties the cache)",
         "the network side (request parser / response encoder in harness/props/client_lib.py) was written from the Kafka protocol guide, not from afkak's codec",
         "close() called while a lookup of the running operation is pending: client.py:383-389 fail the pending request synchronously, the operation's continuation runs inside close() and reads the cache BEFORE reset_all_metadata() (391); the model does the same (ClientMeta.close_early during the operation, close_finish after it)",
         "extraction: ExtrOcamlBasic only; Z stays a Coq datatype; sample of the case lines re-evaluated in Coq by vm_compute",
